@@ -14,6 +14,42 @@ def sig(scen, kind, detail, rec=None):
     return {"family": "parse", "kind": kind, "base": name}
 
 
+def typed_option_bases(quick):
+    """Packets carrying one typed option each, built by the typed-option driver (harness/typed_opts.cpp) from the shapes of
+    spec/wire/TypedOptsGen; returned as raw bases for fault injection."""
+    import json
+    import os
+    from families import typed
+    shapes, _ = vlib.tlc_generate(typed.GEN, "TypedOptsGen_q.cfg", workers=4, timeout=600)
+    best, small = {}, {}
+    for s in shapes:
+        if len(s["steps"]) != 1:
+            continue
+        n = typed._max_len(s["steps"][0]["shape"])
+        key = (s["cls"], s["steps"][0]["opt"])
+        # two small but non-trivial values: the longest shape that keeps the packet short, and the shortest non-empty one
+        if n <= 12 and (key not in best or n > best[key][0]):
+            best[key] = (n, s)
+        if 1 <= n <= 12 and (key not in small or n < small[key][0]):
+            small[key] = (n, s)
+    picked = {}
+    for k, v in list(best.items()) + list(small.items()):
+        picked[(k, v[0])] = v[1]
+    scen = [dict(v, emit_bytes=True) for k, v in sorted(picked.items(), key=lambda kv: (kv[0][0], kv[0][1]))]
+    exe = vlib.build_harness(typed.HARNESS)
+    d = vlib.workdir(PROP)
+    sp, tp = os.path.join(d, "typed-bases.scen.jsonl"), os.path.join(d, "typed-bases.trace.ndjson")
+    vlib.write_lines(sp, scen)
+    vlib.run_harness(exe, [], sp, tp, timeout=600)
+    out = []
+    with open(tp) as f:
+        for line in f:
+            r = json.loads(line)
+            if r.get("e") == "opt" and r.get("wire"):
+                out.append({"raw": r["wire"], "name": "typed_%s_%s_%d" % (r["cls"], r["opt"], len(r["wire"])), **({"entry": "dot11"} if r["cls"] == "Dot11" else {})})
+    return out if not quick else out
+
+
 def scenarios(rng, quick, option_shapes=False):
     """(scenarios, bases, chunks, generator results).  option_shapes: instead of a random sample of WireGen shapes take one shape
     per (network-layer option shape, transport option shape) - the packets whose re-serialisation has something to compute."""
@@ -38,6 +74,8 @@ def scenarios(rng, quick, option_shapes=False):
             bases.append({"raw": list(b), "name": n + "+plen0", "pre": [[o + 4, 0], [o + 5, 0]]})
         if n.startswith("ip4_") and (not quick or n.endswith("rr_udp_v0")):
             bases.append({"raw": list(b), "name": n + "+totlen0", "pre": [[o + 2, 0], [o + 3, 0]]})
+    # one packet per typed option (106 accessor pairs of spec/wire/TypedOpts), so that faults land in every option decoder
+    bases += typed_option_bases(quick)
     if option_shapes:
         seen = {}
         for s in shapes:
